@@ -392,7 +392,7 @@ func vfC37MakeSeeds() map[string][]vfC37Seed {
 		w, err := ivfwriter.NewWith(&buf, ivfwriter.WithCodec("video/AV1"), ivfwriter.WithFrameRate(1, 90000), ivfwriter.WithDirectPTS())
 		vfC37Must(err)
 		pay := &codecs.AV1Payloader{}
-		tu := append([]byte{0x12, 0x00, 0x0A, 0x05}, vfC37Fill(5, 3)...)     // TD, sequence header (5 bytes)
+		tu := append([]byte{0x12, 0x00, 0x0A, 0x05}, vfC37Fill(5, 3)...)    // TD, sequence header (5 bytes)
 		tu = append(tu, append([]byte{0x32, 0x28}, vfC37Fill(40, 4)...)...) // frame OBU (40 bytes)
 		ps := pay.Payload(30, tu)
 		for j, p := range ps {
